@@ -15,4 +15,17 @@ CHECKS = {
                   "quick": {"count": 2400, "budget": 60, "workers": 8},
                   "thorough": {"count": 40000, "budget": 900, "workers": 16}}],
     },
+    "C07": {
+        "level": "exploration",
+        "rule": ("one evaluation = one array sequence (<= 6 arrays quick, <= 12 thorough) written twice through EclOutput (fault-free, and under "
+                 "plan-chosen short-write/EINTR outcomes: bytes must be identical), decoded by the independent codec and read by EclFile under "
+                 "short-read/EINTR outcomes; the first array walks every type x every length 0..2*block+2 over run indices (edge lengths first). "
+                 "distinct = hash of (formatted, ix, type:length list, fault kinds); non-trivial = swept array non-empty"),
+        "assumptions": ["the independent codec (simcore/eclcodec.hpp) is the reference for the published layout",
+                        "X231 headers (more than 2^31-1 elements) are outside the explored sizes",
+                        "formatted reals compare to printed precision (REAL 1.2e-7, DOUB 1e-13 relative)"],
+        "bins": [{"name": "c07", "srcs": ["scen/c07_arr.cpp"],
+                  "quick": {"count": 6000, "budget": 60, "workers": 8},
+                  "thorough": {"count": 200000, "budget": 900, "workers": 16}}],
+    },
 }
